@@ -13,8 +13,9 @@ import numpy as np
 
 ID = "C20"
 LEVEL = "exploration"
-RULE = ("random rectangular grids (n_x, n_y in 2..14, dx != dy in 1e-3..1, origin R0 0.2..10) built as voxel-vertex "
-        "arrays + index maps in the module's documented column-major / y-decreasing order, random polynomial fields; "
+RULE = ("random rectangular grids (n_x, n_y in 2..14, a few with 1030..1400 cells; dx != dy in 1e-3..1, origin R0 0.2..10) built as voxel-vertex "
+        "arrays (float64 / float32 / integer; vertices listed from any corner in either sense, one listing per grid or a different one per voxel) "
+        "+ index maps in the module's documented column-major / y-decreasing order, random polynomial fields; "
         "'deriv' cases drive the five derivative operators, 'admt' cases drive calculate_admt with linear / quadratic / "
         "cubic flux maps whose gradient is bounded away from zero and anisotropy 1..1e4; a case is non-trivial when at "
         "least one exactness comparison was evaluated on a cell (distinct = distinct grid+field descriptors)")
@@ -30,7 +31,8 @@ ASSUMPTIONS = ["voxels are equal rectangles ordered column-major with y decreasi
 QUICK = dict(cases=400, workers=2, timecap=60)
 THOROUGH = dict(cases=40000, workers=16, timecap=600)
 REQUIRED = {"const": 1000, "linear": 1000, "bilinear": 500, "quadratic": 200, "admt_finite": 50, "admt_const": 50,
-            "admt_iso": 50, "admt_analytic": 50, "admt_scale": 100, "sibling": 300}
+            "admt_iso": 50, "admt_analytic": 50, "admt_scale": 100, "sibling": 300,
+            "vertex_order_uniform": 25, "vertex_order_mixed": 15, "large_grid": 2}
 
 
 def gen_case(rng, tier):
@@ -52,11 +54,21 @@ def gen_case(rng, tier):
         # integer-valued vertex coordinates (pixel / millimetre grids), handed over as an integer array or as int tuples
         case.update(dx=float(2 * rng.integers(1, 4)), dy=float(2 * rng.integers(1, 4)), R0=float(rng.integers(1, 20)),
                     Z0=float(rng.integers(-10, 10)), vertex_kind=["int_array", "int_tuples", "float32_array"][int(rng.integers(3))])
+    # the vertices of a voxel may be listed from any corner and in either sense (only their mean is documented to matter):
+    # one listing for the whole grid ('uniform') or a different one per voxel ('mixed')
+    r = rng.random()
+    if r < 0.25:
+        case["vorder"] = dict(mode="uniform", start=int(rng.integers(4)), rev=bool(rng.random() < 0.5))
+    elif r < 0.40:
+        case["vorder"] = dict(mode="mixed", seed=int(rng.integers(2 ** 31)))
+    # grids with more than 1024 cells (the operators are dense n x n arrays: keep them rare)
+    if rng.random() < (0.02 if tier == "quick" else 0.01):
+        case["nx"] = nx = int(rng.integers(26, 41))
+        case["ny"] = ny = int(np.ceil(rng.integers(1030, 1400) / nx))
+        case["large"] = True
     # polynomial coefficients in normalised coordinates u=(x-xc)/Lx, v=(y-yc)/Ly, |u|,|v|<=1/2
     case["f"] = [float(c) for c in rng.normal(size=10)]          # 1,u,v,u2,uv,v2,u3,u2v,uv2,v3
     if kind == "admt":
-        if tier == "thorough":
-            nx = max(nx, int(rng.integers(2, 15)))
         pk = ["linear", "quadratic", "quadratic", "cubic"][int(rng.integers(4))]
         # dominant linear part so that |grad psi| stays away from zero
         th = rng.uniform(0, 2 * np.pi)
@@ -85,6 +97,14 @@ def fixed_cases(tier):
            dict(base, kind="admt", nx=8, ny=9, psi_kind="quadratic", psi=[0.1, 2.0, 1.0, 0.3, 0.45, -0.2, 0, 0, 0, 0], anisotropy=10),
            dict(base, kind="admt", nx=8, ny=9, psi_kind="cubic", psi=[0.1, 2.0, 1.0, 0.3, 0.45, -0.2, .1, -.1, .2, .05], anisotropy=1.0),
            dict(base, kind="admt", nx=2, ny=2, psi_kind="linear", psi=[0.1, 2.0, 1.0, 0, 0, 0, 0, 0, 0, 0], anisotropy=100.0)]
+    qpsi = [0.1, 2.0, -1.4, 0.5, 0.45, -0.4, 0, 0, 0, 0]
+    out += [dict(base, kind="deriv", vorder=dict(mode="uniform", start=1, rev=False)),
+            dict(base, kind="deriv", vorder=dict(mode="uniform", start=2, rev=True)),
+            dict(base, kind="deriv", vorder=dict(mode="mixed", seed=7)),
+            dict(base, kind="admt", nx=8, ny=9, psi_kind="quadratic", psi=qpsi, anisotropy=10, vorder=dict(mode="mixed", seed=11)),
+            dict(base, kind="deriv", nx=36, ny=30, large=True),
+            dict(base, kind="admt", nx=36, ny=30, large=True, psi_kind="quadratic", psi=qpsi, anisotropy=10),
+            dict(base, kind="admt", nx=33, ny=32, large=True, psi_kind="quadratic", psi=qpsi, anisotropy=1)]
     return out
 
 
@@ -119,6 +139,18 @@ def build_grid(case):
             i += 1
     verts = np.array(verts)
     cen = verts.mean(axis=1)
+    vo = case.get("vorder")
+    if vo:
+        if vo["mode"] == "uniform":
+            verts = np.roll(verts, vo["start"], axis=1)
+            if vo["rev"]:
+                verts = verts[:, ::-1, :]
+        else:
+            r2 = np.random.default_rng(vo["seed"])
+            for j in range(len(verts)):
+                w = np.roll(verts[j], int(r2.integers(4)), axis=0)
+                verts[j] = w[::-1] if r2.random() < 0.5 else w
+        verts = np.ascontiguousarray(verts)
     vk = case.get("vertex_kind")
     if vk == "int_array":
         assert np.all(verts == np.round(verts))
@@ -160,12 +192,38 @@ def _sibling_grids(case, ops_first, ctx):
                   "generate_derivative_operators gives a different %s for the same grid after other grids were built" % nm, monitor="sibling")
 
 
+class _Suffixed:
+    """ctx proxy that appends the vertex-listing class to every violation key (mechanism-level keys)"""
+
+    def __init__(self, ctx, sfx):
+        self._c, self._s = ctx, sfx
+
+    def __getattr__(self, name):
+        return getattr(self._c, name)
+
+    def close(self, got, want, key, *a, **k):
+        return self._c.close(got, want, key + self._s, *a, **k)
+
+    def check(self, ok, key, *a, **k):
+        return self._c.check(ok, key + self._s, *a, **k)
+
+    def viol(self, key, *a, **k):
+        return self._c.viol(key + self._s, *a, **k)
+
+
 def run_case(case, ctx):
     from cherab.tools.inversions.admt_utils import generate_derivative_operators, calculate_admt
+    vo = case.get("vorder")
+    if vo:
+        ctx = _Suffixed(ctx, ":vertices-listed-from-another-corner" if vo["mode"] == "uniform" else ":vertex-listing-differs-between-voxels")
+        ctx.mon("vertex_order_" + vo["mode"])
+    if case.get("large"):
+        ctx.mon("large_grid")
     nx, ny, dx, dy = case["nx"], case["ny"], case["dx"], case["dy"]
     verts, m12, m21, x, y, ix, iy = build_grid(case)
     ops = generate_derivative_operators(verts, m12, m21)
-    ctx.cls(case["kind"] + (":" + case["vertex_kind"] if case.get("vertex_kind") else ""))
+    ctx.cls(case["kind"] + (":" + case["vertex_kind"] if case.get("vertex_kind") else "") + (":vorder-" + vo["mode"] if vo else "")
+            + (":>1024-cells" if case.get("large") else ""))
     xc, yc = x.mean(), y.mean()
     Lx, Ly = nx * dx, ny * dy
     n = nx * ny
@@ -176,7 +234,8 @@ def run_case(case, ctx):
             ctx.viol("operator-malformed:%s" % nm, "operator %s has shape %s or non-finite entries" % (nm, ops[nm].shape))
             return
     if case["kind"] == "deriv":
-        _sibling_grids(case, ops, ctx)
+        if not case.get("large"):
+            _sibling_grids(case, ops, ctx)
         c = list(case["f"])
         ctx.nontrivial()
         # constants
